@@ -43,7 +43,7 @@ LastIsEmptyStored(d) == Len(d.blocks) > 0 /\ LET b == d.blocks[Len(d.blocks)] IN
 (* ---- streaming scenario ---- *)
 (* accumulator: produced bytes, consumed count, violations, stall counter, full-flush points, flags *)
 CallRules(s, acc, k) ==
-  LET c == s.calls[k]
+  LET c == [s.calls[k] EXCEPT !.eos = IF @ # 0 THEN 1 ELSE 0]      \* end_of_stream is documented as "non-zero if this is the last input buffer"
       v0 == {}
       \* D1 / D2: accounting
       v1 == (IF c.c > c.ai \/ c.p > c.ao \/ Len(c.out) # c.p \/ c.touched_outside # 0 THEN {<<k, "D1-wrote-or-read-beyond-avail">>} ELSE {})
@@ -151,7 +151,7 @@ JudgeStream(s) ==
 
 (* ---- one-shot scenario (isal_deflate_stateless): rules S1-S4 ---- *)
 JudgeOneShot(s) ==
-  LET c == s.calls[1]   n == Len(s.inp)   w == WrapName(s.wrap)   bnd == Bound(n, s.wrap)
+  LET c == [s.calls[1] EXCEPT !.eos = IF @ # 0 THEN 1 ELSE 0]   n == Len(s.inp)   w == WrapName(s.wrap)   bnd == Bound(n, s.wrap)
       pok == ParamsOK(s, c.flush)
       v1 == (IF c.c > c.ai \/ c.p > c.ao \/ Len(c.out) # c.p \/ c.touched_outside # 0 THEN {<<1, "S1-wrote-or-read-beyond-avail">>} ELSE {})
             \cup (IF c.dti # c.c \/ c.dto # c.p \/ c.dni # c.c \/ c.dno # c.p THEN {<<1, "S1-counters-disagree-with-pointers">>} ELSE {})
